@@ -1662,6 +1662,11 @@ impl<'a, 'b, W: Write> Serializer for &'a mut YamlSerializer<'b, W> {
                 self.write_scalar_prefix_if_anchor()?;
             } else {
                 self.write_anchor_for_complex_node()?;
+                if anchor_ends_line && !inline_first {
+                    // The value of an explicit `? key` entry arrives with the "stay on the `:`
+                    // line" hint; the anchor has just ended that line.
+                    self.pending_inline_map = false;
+                }
             }
             if nested_on_own_line && !anchor_ends_line {
                 self.newline()?;
